@@ -87,6 +87,24 @@ class ExprMixin:
             return
         self.mayraise.append((c, exc, node))
 
+    def decided(self, st, c):
+        """True/False if the path condition entails c / not c (quantifier-free quick check), else None.
+        Used to prune branches; relies on the solver's `unsat` exactly as obligations do."""
+        if not self.prune:
+            return None
+        c = to_z3(c)
+        facts = [f for f in list(self.global_facts) + list(st.pc) + [to_z3(g) for g in self.guard] if not _has_quant(f)]
+        if _has_quant(c) or len(facts) > 400:
+            return None
+        for val, goal in ((True, z3.Not(c)), (False, c)):
+            s = z3.Solver()
+            s.set("timeout", 300)
+            s.add(*facts)
+            s.add(goal)
+            if s.check() == z3.unsat:
+                return val
+        return None
+
     # ------------------------------------------------------------------ truthiness / equality
     def truth(self, v):
         if v is None:
@@ -136,6 +154,8 @@ class ExprMixin:
             return a is None and b is None
         if is_conc(a) and is_conc(b):
             return a == b
+        if isinstance(a, VVec) and isinstance(b, VVec):
+            return AND(*[x == y for x, y in zip(a.c, b.c)])
         if isinstance(a, VChar) or isinstance(b, VChar):
             if not isinstance(a, VChar):
                 a, b = b, a
@@ -349,6 +369,8 @@ class ExprMixin:
     def ev_IfExp(self, node, st):
         c = self.truth(self.ev(node.test, st))
         cb = conc_bool(c)
+        if cb is None:
+            cb = self.decided(st, c)
         if cb is True:
             return self.ev(node.body, st)
         if cb is False:
@@ -447,7 +469,7 @@ class ExprMixin:
             return za * zb
         if isinstance(op, ast.Div):
             self.may_raise(zb == 0, "ZeroDivisionError", node)
-            return za / zb
+            return self.real_div(za, zb)
         if isinstance(op, ast.FloorDiv) and not real:
             if isinstance(b, int) and b > 0:
                 return za / zb  # z3 integer div: floor for positive divisors
@@ -462,6 +484,40 @@ class ExprMixin:
                 r = r * za
             return r
         raise Unsupported(f"binop {type(op).__name__}")
+
+    def real_div(self, x, y):
+        """x / y as x * inv(y): inv(y) is a memoised fresh variable with the defining fact y != 0 -> inv(y)*y == 1
+        (keeps verification conditions polynomial)"""
+        if z3.is_rational_value(y) or z3.is_int_value(y):
+            return x / y
+        cache = self.__dict__.setdefault("_inv_cache", {})
+        key = y.get_id()
+        if key not in cache:
+            r = z3.Real(uid("inv"))
+            self.global_facts.append(z3.Implies(y != 0, r * y == 1))
+            cache[key] = (r, y)
+        return x * cache[key][0]
+
+    def vec_binop(self, op, a, b, node):
+        def comp(v, k):
+            return v.c[k] if isinstance(v, VVec) else to_z3(v, "real")
+        n = len(a.c) if isinstance(a, VVec) else len(b.c)
+        if isinstance(a, VVec) and isinstance(b, VVec) and len(a.c) != len(b.c):
+            self.may_raise(True, "ValueError", node)
+        out = []
+        for k in range(n):
+            x, y = comp(a, k), comp(b, k)
+            if isinstance(op, ast.Add):
+                out.append(x + y)
+            elif isinstance(op, ast.Sub):
+                out.append(x - y)
+            elif isinstance(op, ast.Mult):
+                out.append(x * y)
+            elif isinstance(op, ast.Div):
+                out.append(self.real_div(x, y))  # numpy: no exception on division by zero (inf/nan) - excluded by contracts
+            else:
+                raise Unsupported("vector operator")
+        return VVec(out)
 
     def list_concat(self, a, b):
         if a.elems is None:
@@ -636,6 +692,10 @@ class ExprMixin:
                 raise Unsupported("index into empty literal list")
             i = self.norm_index(idx, base.length, node)
             return sel(base.elems, to_z3(i))
+        if isinstance(base, VVec):
+            if isinstance(idx, int) and -len(base.c) <= idx < len(base.c):
+                return base.c[idx]
+            raise Unsupported("symbolic index into a vector")
         if isinstance(base, VTuple):
             if isinstance(idx, int):
                 if not (-len(base.items) <= idx < len(base.items)):
@@ -881,6 +941,16 @@ def VEnumIte(engine, c, a, b):
     kb = b.obj.name if isinstance(b, VConc) else b.key
     cls = type(a.obj) if isinstance(a, VConc) else a.cls
     return VEnumSym(cls, z3.If(to_z3(c), to_z3(ka), to_z3(kb)), "name")
+
+
+def _has_quant(e, seen=None):
+    seen = set() if seen is None else seen
+    if e.get_id() in seen:
+        return False
+    seen.add(e.get_id())
+    if z3.is_quantifier(e):
+        return True
+    return any(_has_quant(ch, seen) for ch in e.children())
 
 
 def _free_consts(e, acc=None, seen=None):
